@@ -55,6 +55,65 @@ def check_rate_sync(ctx, rule: str, only_functions=None) -> int:
                 ctx.info(f'{rule} {where} {key}: {msg}')
             continue
         ctx.check(ok, rule, key, where, msg, fact=f'converted to {target}.CurrentUnits')
+    # S4: every object that discounts gets synchronised.  Each Economics-derived object carries its own copies of Discount Rate / Fixed Internal
+    # Rate (the add-on and S-DAC-GT economics included) and reads them in its own read_parameters; the sync therefore has to run on every one
+    # of them, which it does exactly when it is invoked on `self` from a read_parameters that every subclass chain passes through.
+    for f in repo.all_functions():
+        if not (f.name.startswith('sync_') and f.cls is not None and f.cls.name == 'Economics'):
+            continue
+        if only_functions is not None and f.name not in only_functions:
+            continue
+        n += 1
+        sites = [(g, c) for g in repo.all_functions() for c in ast.walk(g.node)
+                 if isinstance(c, ast.Call) and isinstance(c.func, ast.Attribute) and c.func.attr == f.name]
+        on_self = [(g, c) for g, c in sites if norm(c.func.value) == 'self' and g.cls is not None and g.cls.name == 'Economics' and g.name == 'read_parameters']
+        synced = {s_.targets[0].value.attr for s_ in ast.walk(f.node) if isinstance(s_, ast.Assign) and isinstance(s_.targets[0], ast.Attribute)
+                  and s_.targets[0].attr == 'value' and isinstance(s_.targets[0].value, ast.Attribute)}
+
+        def _uses(ci) -> bool:
+            # the object needs the sync when code of its own class (or the Calculate it resolves to) reads one of the synchronised parameters
+            fns = list(ci.methods.values())
+            calc = repo.resolve_method(ci, 'Calculate')
+            if calc is not None and calc not in fns:
+                fns.append(calc)
+            return any(isinstance(x, ast.Attribute) and x.attr in synced and isinstance(x.value, ast.Name) and x.value.id == 'self'
+                       and isinstance(x.ctx, ast.Load) for g_ in fns for x in ast.walk(g_.node))
+        subs = [ci for ci in repo.subclasses(f.cls) if _uses(ci)]
+        chain_ok = bool(on_self)
+        missing = []
+        if on_self:
+            for ci in subs:
+                rp = repo.resolve_method(ci, 'read_parameters')
+                cur, reaches, hops = rp, False, 0
+                while cur is not None and hops < 6:
+                    hops += 1
+                    if cur.cls is not None and cur.cls.name == 'Economics':
+                        reaches = True
+                        break
+                    sup = any(isinstance(c, ast.Call) and isinstance(c.func, ast.Attribute) and c.func.attr == 'read_parameters' and
+                              norm(c.func.value).startswith('super()') for c in ast.walk(cur.node))
+                    own = any(isinstance(c, ast.Call) and isinstance(c.func, ast.Attribute) and c.func.attr == f.name and norm(c.func.value) == 'self'
+                              for c in ast.walk(cur.node))
+                    if own:
+                        reaches = True
+                        break
+                    if not sup:
+                        break
+                    nxt = None
+                    for b in repo.mro(cur.cls)[1:]:
+                        if 'read_parameters' in b.methods:
+                            nxt = b.methods['read_parameters']
+                            break
+                    cur = nxt
+                if not reaches:
+                    missing.append(ci.name)
+        else:
+            missing = [ci.name for ci in subs] or ['Economics']
+        ctx.check(chain_ok and not missing, rule, f'Economics.{f.name}/runs-on-every-economics-object', f.where,
+                  f'{f.name} is not invoked on `self` from a read_parameters that every Economics-derived object passes through '
+                  f'({", ".join(sorted(missing)[:4])} not covered; call sites: {[g.qualname for g, _ in sites][:3]}): such an object keeps its own default '
+                  f'Discount Rate / Fixed Internal Rate although the user stated another, and its NPV, VIR and levelized costs use the default',
+                  fact='self.%s(...) inside Economics.read_parameters; every subclass chain reaches it' % f.name)
     # S2 in sync functions
     for f in repo.all_functions():
         if not (f.name.startswith('sync_') and f.cls is not None and f.cls.name.endswith('Economics')):
